@@ -446,6 +446,59 @@ def q_dominates(ctx, p):
     enc = sym.Enc(fn, funcs, glob)
     s = z3.Solver()
     s.add(enc.extra)
+    comp_details = []
+    if not enc.call_sites(p["before"]) and not p.get("_in_helper"):
+        # Compositional fallback (extract-function refactorings): `before` is not called in fn itself
+        # but in exactly one crate-local helper H that fn calls.  (1) Under the same assumptions,
+        # evaluated where H reads them, every return of H has passed `before` (for the vacuity twin:
+        # some return has not); (2) in fn the call of H then plays the role of `before`.
+        helpers = []
+        for b, t in enc.call_sites():
+            last = norm_callee(t["callee"]).split("::")[-1]
+            cands = [f for n, f in funcs.items() if not n.startswith("const ") and "{closure" not in n and (n == last or n.endswith("::" + last))]
+            if len(cands) == 1 and cands[0].name != fn.name:
+                h = cands[0]
+                if any(bl.term and bl.term["kind"] == "call" and re.search(p["before"], bl.term["callee"]) for bl in h.blocks.values()):
+                    if h.name not in [x.name for x in helpers]:
+                        helpers.append(h)
+        if len(helpers) == 1:
+            h = helpers[0]
+            henc = sym.Enc(h, funcs, sym.Glob())
+            hs = z3.Solver()
+            hs.add(henc.extra)
+            hextra = []
+            for pat, val in (p.get("assume_sites") or []):
+                for b, t in henc.call_sites(pat):
+                    if b in henc.site and z3.is_bool(henc.site[b]):
+                        hextra.append(henc.site[b] == val)
+            found_disc = not p.get("assume_disc")
+            for pat, val in (p.get("assume_disc") or []):
+                for b in henc.order:
+                    for k, v in henc.out_state[b].items():
+                        if k.startswith("disc:") and re.search(pat, k + " : " + " ".join(h.locals.get(l, "") for l in re.findall(r"_\d+", k))):
+                            hextra.append(v == val)
+                            found_disc = True
+            if not found_disc:
+                return dict(status="inconclusive", reason="assumption discriminant not found in %s nor in its helper %s" % (short_fn(fn.name), short_fn(h.name)))
+            hg = ghost_count(henc, p["before"])
+            rets = [b for b in henc.order if henc.blocks[b].term and henc.blocks[b].term["kind"] == "return"]
+            skipping = [b for b in rets if ctx.check(hs, henc.reach[b], hg[b] == 0, *hextra) == z3.sat]
+            if p.get("sanity_expect_fail"):
+                if skipping:
+                    return dict(status="held", witnesses=[], obligations=len(rets), discharged=len(rets), functions=[fn.name, h.name],
+                                details=["sanity twin (compositional): helper %s can return without %s under the negated assumption, as expected" % (short_fn(h.name), p["before"])])
+                return dict(status="inconclusive", reason="vacuity guard: sanity twin found no witness in helper %s" % short_fn(h.name))
+            if skipping:
+                return dict(status="failed", obligations=len(rets), discharged=len(rets) - len(skipping), functions=[fn.name, h.name],
+                            witnesses=[dict(key="%s: returns without %s" % (short_fn(h.name), p["before"]),
+                                            what="helper %s (called by %s in place of a direct %s) can return without calling it under the stated assumptions (return bb%s)" % (
+                                                short_fn(h.name), short_fn(fn.name), p["before"], skipping))])
+            comp_details.append("compositional: %s is called in helper %s; under the assumptions every one of its %d returns has passed it; the call of the helper is the 'before' event in %s" % (
+                p["before"], short_fn(h.name), len(rets), short_fn(fn.name)))
+            p = dict(p)
+            p["before"] = "^" + re.escape([t["callee"] for b, t in enc.call_sites() if norm_callee(t["callee"]).split("::")[-1] == h.name.split("::")[-1]][0]) + "$"
+            p["assume_sites"] = [x for x in (p.get("assume_sites") or []) if enc.call_sites(x[0])]
+            p["assume_disc"] = []
     g = ghost_count(enc, p["before"])
     targets = enc.call_sites(p["target"])
     befores = enc.call_sites(p["before"])
@@ -499,7 +552,7 @@ def q_dominates(ctx, p):
                     discharged=discharged, functions=[fn.name])
     return dict(status="failed" if uniq else "held", witnesses=list(uniq.values()), obligations=obligations,
                 discharged=discharged, functions=[fn.name],
-                details=["%d target call sites, each checked for a %s-free path" % (len(targets), p["before"])])
+                details=comp_details + ["%d target call sites, each checked for a %s-free path" % (len(targets), p["before"])])
 
 
 # ---------------------------------------------------------------------------------------------
